@@ -138,6 +138,10 @@ def mul_scalar(Y1, Y2, use_stab=False):
     p = 0
 
     for i, (G1, G2) in enumerate(zip(Y1, Y2)):
+        if use_stab:
+            G1, p = teneva.core_stab(G1, p)
+            G2, p = teneva.core_stab(G2, p)
+
         G = G1[:, None, :, :, None] * G2[None, :, :, None, :]
         G = G.reshape([G1.shape[0]*G2.shape[0], -1, G1.shape[-1]*G2.shape[-1]])
         G = np.sum(G, axis=1)
